@@ -164,6 +164,41 @@ def generate(rng, tier):
             ln = s.add("trace U F 0x5555 %s CH%d %d" % (regs, ch, depth + 4), tag="%s:chain:%d" % (arch, depth))
             s.meta[ln] = {"chain": [[f, pairs[f], pairs[f + 8]] for f in fps], "arch": arch, "lr": 0x6660, "mem": "CH%d" % ch}
         out.append(("fallback-%s-%d" % (arch, rep), s))
+    # a search table with entries that do not lead to an FDE (they point at the CIE, into the middle of an entry, at
+    # the terminator, behind the section): for the addresses they claim there is no usable unwind information -
+    # frame-pointer convention in every frame. Judged only: the model has no notion of table entries without an FDE.
+    for ai, arch in enumerate(("x86", "a64")):
+        s = Script(arch, "may"); s.nomodel = True
+        base = 0x7000
+        memd = {}
+        for i in range(96):
+            c = rng.below(10)
+            memd[base + 8 * i] = 0 if c == 0 else (0x20000 + rng.below(0x8000) if c < 6 else base + 8 * rng.below(110))
+        s.mem("S", sorted(memd.items()))
+        probes = []
+        for hi, hdr_enc in enumerate(("abs8", "rel")):
+            lo = 0x600000 + 0x10000 * hi
+            fd = [dict(start=0x100, len=0x40, rows=[(0, suites.std_row(arch, "frameless", 3))]),
+                  dict(start=0x300, len=0x40, rows=[(0, suites.std_row(arch, "frameless", 4))])]
+            # CIE at 0; 4 = inside the CIE; 0x7ff0 = behind the section
+            extra = [(0x200, 0), (0x240, 4), (0x400, 0x7ff0)]
+            s.module_dwarf("MH%d" % hi, lo, lo + 0x1000, lo, 0, "hdr", fd, rng, hdr_enc=hdr_enc, hdr_extra=extra)
+            probes += [("hdr-nofde", lo + a) for a in (0x200, 0x210, 0x23f, 0x240, 0x2ff, 0x400, 0x800)]
+            probes += [("gap-hdr", lo + a) for a in (0x140, 0x1ff, 0x340)]         # control: real FDEs still decide their gaps
+        s.add("new U"); s.add("add U MH0"); s.add("add U MH1")
+        for reason, a in probes:
+            for first in (1, 0):
+                for _ in range(2):
+                    sp = base + 8 * rng.range(0, 40)
+                    fp = rng.choice([base + 8 * rng.range(0, 90), base + 8 * rng.range(0, 90), base + 8 * rng.range(0, 90), 0])
+                    lr = rng.choice([0x33330, 0x44440])
+                    regs = s.regs_x86(a, sp, fp) if arch == "x86" else s.regs_a64(M64, lr, sp, fp)
+                    s.add("newcache F")
+                    for rep2 in range(2):
+                        ln = s.add("unwind U F %s %s %s S" % ("ip" if first else "ra", hx(a if first else a + 1), regs),
+                                   tag="%s:%s:%d:%s" % (arch, reason, first, "warm" if rep2 else "fresh"))
+                        s.meta[ln] = {"reason": reason, "first": first, "sp": sp, "fp": fp, "lr": lr, "arch": arch}
+        out.append(("hdr-nofde-%s" % arch, s))
     return out
 
 def mem_of(script, mid):
